@@ -3,16 +3,58 @@ The definitions REGENERATED from the Rust source by /verif/extract/extract_arith
 (`PP/Gen/Arith.lean`, namespace `PP.Gen.A`, one `let` per Rust statement) are equal to the
 hand-written model (`PP/Model/Tower.lean`, `Curve.lean`, `Map.lean`, `Pairing.lean`).
 
-Proof method.  The hand model was written statement by statement, so every equality is `rfl` up to
-unfolding of the definition, `let`, and structure projections.  To keep each theorem LOCAL (an edit
-of Rust `Fq2::mul_assign` must break `Fq2_mul_eq` and nothing else) and cheap, a proof first
-rewrites the calls of generated lower-layer functions into the model's with the equalities already
-proved (`lower2`, `lower6`, `lower12`, `lowerEC`: `simp -zeta only` with closed equations between
-constants, nothing else), and only then compares by `rfl`.  Where the `match` on an inverse would
-make `whnf` unfold the whole tower (`Fq12.inverse`, `final_exponentiation`) the lower-layer
-functions are moreover GENERALISED to variables, so that the `rfl` is purely structural.  The two
-`negate`s have their branches the other way round in the model (`if is_zero then p else ..` for the
-Rust `if !is_zero { .. }`): case split.
+Proof method.  To keep each theorem LOCAL (an edit of Rust `Fq2::mul_assign` must break `Fq2_mul_eq`
+and nothing else) and cheap, a proof first rewrites the calls of generated lower-layer functions into
+the model's with the equalities already proved (`lower2`, `lower6`, `lower12`, `lowerEC`:
+`simp -zeta only` with closed equations between constants, nothing else), and then compares the two
+sides.  The hand model was written statement by statement, so on the code as it is the two sides are
+the same term up to unfolding of `let`s and structure projections: `rfl`.
+
+ROBUSTNESS against semantics-preserving rewrites of the Rust code (`gen_eq`, `gen_eq_ring` of
+PP/Proofs/GenArithTactic.lean, which see).  Reordering independent statements, introducing or removing
+temporaries, computing a subexpression twice leave the term the same up to `let`s: `rfl` still works.
+ALGEBRAIC rewrites (`t1 + t0` for `t0 + t1`, `a.double()` for `a + a`, `mul_assign(&self)` for
+`square()`, another association, a schoolbook product for a Karatsuba one, ...) change the term; there
+the second alternative of `gen_eq` compares the two sides extensionally, componentwise, up to the
+commutative-ring laws of the base field (core solver `grobner`; `Fq` and `Fq2` with the model's own
+operations are `Lean.Grind.CommRing`s, proved in GenArithTactic.lean from `Nat` lemmas), after
+identifying the conditions of `if`s / discriminants of `match`es of the two sides.  When it is used it
+says so (`info: .. gen_eq: generated code is no longer syntactically the model ..`).  A change of the
+MEANING (wrong sign, operand, constant, missing term) makes both alternatives fail, in a few seconds.
+
+  robust (`gen_eq`):       every `Fq2`, `Fq6`, `Fq12` function with arithmetic (all but `zero one
+                           is_zero`), incl. the three `inverse`s (a `match`); `doubling_step`,
+                           `addition_step`, `ell`; `Fq2::legendre` (through `norm`)
+  robust (`gen_eq_ring`):  the ADDITIONAL theorems `*_eq_of_ring` for the arithmetic-carrying functions
+                           that are generic in the coefficient field (`is_on_curve`, `PartialEq::eq`,
+                           `double`, `add_assign`, `add_assign_mixed`, `into_affine`, `get_point_from_x`,
+                           `osswu_help`) over `[Lean.Grind.CommRing F] [LawfulSqDbl F]`, and their
+                           instances `*_eq_Fq`, `*_eq_Fq2` (statement = the generic one at `F := Fq`, `Fq2`,
+                           model's own operations).  They do not use the `rfl`-only generic theorems;
+                           the theorems about the concrete G1 / G2 functions below use THEM.
+                           For Mathlib's `[Field F] [LawfulFieldOps F]` (PP/Proofs/Lawful.lean) they give,
+                           in any file that imports Mathlib (checked; not here: this file is core-only),
+                             instance : LawfulSqDbl F := ⟨LawfulFieldOps.sq_eq, LawfulFieldOps.dbl_eq⟩
+                             theorem Jac_double_eq_of_lawful : (A.Jac.double : Jac F → Jac F) = PP.Jac.double :=
+                               Jac_double_eq_of_ring            -- Mathlib/Algebra/Ring/GrindInstances.lean
+  `rfl` only, by necessity: the SAME functions as stated over bare notation classes `[Add F] [Mul F] ..
+                           [FieldOps F]` (no laws: `x + y` and `y + x` are different there, the
+                           statement is false after an algebraic rewrite); these statements are kept as
+                           they were
+  `rfl` only, no arithmetic of their own (constructors, `is_zero`, `negate`, conversions without
+                           arithmetic, loops / trait plumbing that only call the functions above):
+                           `zero one is_zero`, `sgn0`, `BitXor`, `negate_if`, `Ord::cmp`, `mul_bits`, `mul`,
+                           `mul_assign` (scalar), `sub_assign*`, `in_subgroup`, `clear_h`, `map_to_curve`
+  `rfl` only, NOT robust:  `Fq2::sqrt`, `exp_by_x`, `final_exponentiation` (products of `Fq12` / `Fq2`
+                           values between calls of the generic `pow` loop, which is not a ring
+                           expression: a commuted product there is not recognised), and `osswu_map` for
+                           G1, G2 (concrete-field code with decidable branches, proved through
+                           `derive_unfold`, see below)
+
+Where the `match` on an inverse would make `whnf` unfold the whole tower (`Fq12.inverse`,
+`final_exponentiation`) the lower-layer functions are moreover GENERALISED to variables, so that the
+`rfl` is purely structural.  The two `negate`s have their branches the other way round in the model
+(`if is_zero then p else ..` for the Rust `if !is_zero { .. }`): case split.
 
 Loops.  `mul_bits`, `mul_assign` are `List.foldl`s in the generated code: `mul_bits` is literally the
 model's fold; for `mul_assign` the step function is shown equal to one step of the model's recursive
@@ -23,52 +65,54 @@ model's fold; for `mul_assign` the step function is shown equal to one step of t
 Functions over the concrete fields that branch on decidable equalities (`osswu_map` for G1, G2,
 `map_to_curve` on them) need care: see the comment before `G1_osswuMap_eq`.
 
-Core Lean (plus `PP.Proofs.SswuUnfold`, which provides the `derive_unfold` command); axioms:
-`propext`, `Quot.sound` (via `simp`/`rw`/`funext`) at most.
+Core Lean (plus `PP.Proofs.SswuUnfold`: `derive_unfold`, and `PP.Proofs.GenArithTactic`: `gen_eq`); no
+Mathlib.  Axioms: `propext`, `Quot.sound` (via `simp`/`rw`/`funext`), `Classical.choice` (via `grind`'s
+ring solver, in `GenArithTactic`) at most.
 -/
 import PP.Gen.Arith
 import PP.Proofs.SswuUnfold
+import PP.Proofs.GenArithTactic
 
 set_option linter.unusedSimpArgs false
 
 namespace PP.GenArithLemmas
-open PP PP.Gen
+open PP PP.Gen PP.GenArithTactic
 
 /-! ## Fq2 (src/bls12_381/fq2.rs) -/
 
-theorem Fq2_mulByNonresidue_eq : A.Fq2.mulByNonresidue = PP.Fq2.mulByNonresidue := rfl
-theorem Fq2_norm_eq : A.Fq2.norm = PP.Fq2.norm := rfl
+theorem Fq2_mulByNonresidue_eq : A.Fq2.mulByNonresidue = PP.Fq2.mulByNonresidue := by gen_eq A.Fq2.mulByNonresidue PP.Fq2.mulByNonresidue by skip
+theorem Fq2_norm_eq : A.Fq2.norm = PP.Fq2.norm := by gen_eq A.Fq2.norm PP.Fq2.norm by skip
 theorem Fq2_zero_eq : A.Fq2.zero = (0 : Fq2) := rfl
 theorem Fq2_one_eq : A.Fq2.one = (1 : Fq2) := rfl
 theorem Fq2_isZero_eq : A.Fq2.isZero = PP.Fq2.isZero := rfl
-theorem Fq2_square_eq : A.Fq2.square = PP.Fq2.square := rfl
-theorem Fq2_double_eq : A.Fq2.double = PP.Fq2.double := rfl
-theorem Fq2_neg_eq : A.Fq2.neg = PP.Fq2.neg := rfl
-theorem Fq2_add_eq : A.Fq2.add = PP.Fq2.add := rfl
-theorem Fq2_sub_eq : A.Fq2.sub = PP.Fq2.sub := rfl
-theorem Fq2_mul_eq : A.Fq2.mul = PP.Fq2.mul := rfl
-theorem Fq2_inverse_eq : A.Fq2.inverse = PP.Fq2.inverse := rfl
-theorem Fq2_frobeniusMap_eq : A.Fq2.frobeniusMap = PP.Fq2.frobeniusMap := rfl
+theorem Fq2_square_eq : A.Fq2.square = PP.Fq2.square := by gen_eq A.Fq2.square PP.Fq2.square by skip
+theorem Fq2_double_eq : A.Fq2.double = PP.Fq2.double := by gen_eq A.Fq2.double PP.Fq2.double by skip
+theorem Fq2_neg_eq : A.Fq2.neg = PP.Fq2.neg := by gen_eq A.Fq2.neg PP.Fq2.neg by skip
+theorem Fq2_add_eq : A.Fq2.add = PP.Fq2.add := by gen_eq A.Fq2.add PP.Fq2.add by skip
+theorem Fq2_sub_eq : A.Fq2.sub = PP.Fq2.sub := by gen_eq A.Fq2.sub PP.Fq2.sub by skip
+theorem Fq2_mul_eq : A.Fq2.mul = PP.Fq2.mul := by gen_eq A.Fq2.mul PP.Fq2.mul by skip
+theorem Fq2_inverse_eq : A.Fq2.inverse = PP.Fq2.inverse := by gen_eq A.Fq2.inverse PP.Fq2.inverse by skip
+theorem Fq2_frobeniusMap_eq : A.Fq2.frobeniusMap = PP.Fq2.frobeniusMap := by gen_eq A.Fq2.frobeniusMap PP.Fq2.frobeniusMap by skip
 
 /-- rewrite generated `Fq2` operations into the model's -/
 local macro "lower2" : tactic => `(tactic| try simp -zeta only [Fq2_mulByNonresidue_eq, Fq2_norm_eq, Fq2_zero_eq, Fq2_one_eq, Fq2_isZero_eq, Fq2_square_eq, Fq2_double_eq, Fq2_neg_eq, Fq2_add_eq, Fq2_sub_eq, Fq2_mul_eq, Fq2_inverse_eq, Fq2_frobeniusMap_eq])
 
 /-! ## Fq6 (src/bls12_381/fq6.rs) -/
 
-theorem Fq6_mulByNonresidue_eq : A.Fq6.mulByNonresidue = PP.Fq6.mulByNonresidue := by unfold A.Fq6.mulByNonresidue; lower2; all_goals rfl
-theorem Fq6_mulBy1_eq : A.Fq6.mulBy1 = PP.Fq6.mulBy1 := by unfold A.Fq6.mulBy1; lower2; all_goals rfl
-theorem Fq6_mulBy01_eq : A.Fq6.mulBy01 = PP.Fq6.mulBy01 := by unfold A.Fq6.mulBy01; lower2; all_goals rfl
+theorem Fq6_mulByNonresidue_eq : A.Fq6.mulByNonresidue = PP.Fq6.mulByNonresidue := by gen_eq A.Fq6.mulByNonresidue PP.Fq6.mulByNonresidue by lower2
+theorem Fq6_mulBy1_eq : A.Fq6.mulBy1 = PP.Fq6.mulBy1 := by gen_eq A.Fq6.mulBy1 PP.Fq6.mulBy1 by lower2
+theorem Fq6_mulBy01_eq : A.Fq6.mulBy01 = PP.Fq6.mulBy01 := by gen_eq A.Fq6.mulBy01 PP.Fq6.mulBy01 by lower2
 theorem Fq6_zero_eq : A.Fq6.zero = (0 : Fq6) := by unfold A.Fq6.zero; lower2; all_goals rfl
 theorem Fq6_one_eq : A.Fq6.one = (1 : Fq6) := by unfold A.Fq6.one; lower2; all_goals rfl
 theorem Fq6_isZero_eq : A.Fq6.isZero = PP.Fq6.isZero := by unfold A.Fq6.isZero; lower2; all_goals rfl
-theorem Fq6_double_eq : A.Fq6.double = PP.Fq6.double := by unfold A.Fq6.double; lower2; all_goals rfl
-theorem Fq6_neg_eq : A.Fq6.neg = PP.Fq6.neg := by unfold A.Fq6.neg; lower2; all_goals rfl
-theorem Fq6_add_eq : A.Fq6.add = PP.Fq6.add := by unfold A.Fq6.add; lower2; all_goals rfl
-theorem Fq6_sub_eq : A.Fq6.sub = PP.Fq6.sub := by unfold A.Fq6.sub; lower2; all_goals rfl
-theorem Fq6_frobeniusMap_eq : A.Fq6.frobeniusMap = PP.Fq6.frobeniusMap := by unfold A.Fq6.frobeniusMap; lower2; all_goals rfl
-theorem Fq6_square_eq : A.Fq6.square = PP.Fq6.square := by unfold A.Fq6.square; lower2; all_goals rfl
-theorem Fq6_mul_eq : A.Fq6.mul = PP.Fq6.mul := by unfold A.Fq6.mul; lower2; all_goals rfl
-theorem Fq6_inverse_eq : A.Fq6.inverse = PP.Fq6.inverse := by unfold A.Fq6.inverse; lower2; all_goals rfl
+theorem Fq6_double_eq : A.Fq6.double = PP.Fq6.double := by gen_eq A.Fq6.double PP.Fq6.double by lower2
+theorem Fq6_neg_eq : A.Fq6.neg = PP.Fq6.neg := by gen_eq A.Fq6.neg PP.Fq6.neg by lower2
+theorem Fq6_add_eq : A.Fq6.add = PP.Fq6.add := by gen_eq A.Fq6.add PP.Fq6.add by lower2
+theorem Fq6_sub_eq : A.Fq6.sub = PP.Fq6.sub := by gen_eq A.Fq6.sub PP.Fq6.sub by lower2
+theorem Fq6_frobeniusMap_eq : A.Fq6.frobeniusMap = PP.Fq6.frobeniusMap := by gen_eq A.Fq6.frobeniusMap PP.Fq6.frobeniusMap by lower2
+theorem Fq6_square_eq : A.Fq6.square = PP.Fq6.square := by gen_eq A.Fq6.square PP.Fq6.square by lower2
+theorem Fq6_mul_eq : A.Fq6.mul = PP.Fq6.mul := by gen_eq A.Fq6.mul PP.Fq6.mul by lower2
+theorem Fq6_inverse_eq : A.Fq6.inverse = PP.Fq6.inverse := by gen_eq A.Fq6.inverse PP.Fq6.inverse by lower2
 
 /-- rewrite generated `Fq6` and `Fq2` operations into the model's -/
 local macro "lower6" : tactic => `(tactic| try simp -zeta only [Fq6_mulByNonresidue_eq, Fq6_mulBy1_eq, Fq6_mulBy01_eq, Fq6_zero_eq, Fq6_one_eq, Fq6_isZero_eq, Fq6_double_eq, Fq6_neg_eq, Fq6_add_eq, Fq6_sub_eq, Fq6_frobeniusMap_eq, Fq6_square_eq, Fq6_mul_eq, Fq6_inverse_eq,
@@ -76,25 +120,21 @@ local macro "lower6" : tactic => `(tactic| try simp -zeta only [Fq6_mulByNonresi
 
 /-! ## Fq12 (src/bls12_381/fq12.rs) -/
 
-theorem Fq12_conjugate_eq : A.Fq12.conjugate = PP.Fq12.conjugate := by unfold A.Fq12.conjugate; lower6; all_goals rfl
-theorem Fq12_mulBy014_eq : A.Fq12.mulBy014 = PP.Fq12.mulBy014 := by unfold A.Fq12.mulBy014; lower6; all_goals rfl
+theorem Fq12_conjugate_eq : A.Fq12.conjugate = PP.Fq12.conjugate := by gen_eq A.Fq12.conjugate PP.Fq12.conjugate by lower6
+theorem Fq12_mulBy014_eq : A.Fq12.mulBy014 = PP.Fq12.mulBy014 := by gen_eq A.Fq12.mulBy014 PP.Fq12.mulBy014 by lower6
 theorem Fq12_zero_eq : A.Fq12.zero = (0 : Fq12) := by unfold A.Fq12.zero; lower6; all_goals rfl
 theorem Fq12_one_eq : A.Fq12.one = (1 : Fq12) := by unfold A.Fq12.one; lower6; all_goals rfl
 theorem Fq12_isZero_eq : A.Fq12.isZero = PP.Fq12.isZero := by unfold A.Fq12.isZero; lower6; all_goals rfl
-theorem Fq12_double_eq : A.Fq12.double = PP.Fq12.double := by unfold A.Fq12.double; lower6; all_goals rfl
-theorem Fq12_neg_eq : A.Fq12.neg = PP.Fq12.neg := by unfold A.Fq12.neg; lower6; all_goals rfl
-theorem Fq12_add_eq : A.Fq12.add = PP.Fq12.add := by unfold A.Fq12.add; lower6; all_goals rfl
-theorem Fq12_sub_eq : A.Fq12.sub = PP.Fq12.sub := by unfold A.Fq12.sub; lower6; all_goals rfl
-theorem Fq12_frobeniusMap_eq : A.Fq12.frobeniusMap = PP.Fq12.frobeniusMap := by unfold A.Fq12.frobeniusMap; lower6; all_goals rfl
-theorem Fq12_square_eq : A.Fq12.square = PP.Fq12.square := by unfold A.Fq12.square; lower6; all_goals rfl
-theorem Fq12_mul_eq : A.Fq12.mul = PP.Fq12.mul := by unfold A.Fq12.mul; lower6; all_goals rfl
+theorem Fq12_double_eq : A.Fq12.double = PP.Fq12.double := by gen_eq A.Fq12.double PP.Fq12.double by lower6
+theorem Fq12_neg_eq : A.Fq12.neg = PP.Fq12.neg := by gen_eq A.Fq12.neg PP.Fq12.neg by lower6
+theorem Fq12_add_eq : A.Fq12.add = PP.Fq12.add := by gen_eq A.Fq12.add PP.Fq12.add by lower6
+theorem Fq12_sub_eq : A.Fq12.sub = PP.Fq12.sub := by gen_eq A.Fq12.sub PP.Fq12.sub by lower6
+theorem Fq12_frobeniusMap_eq : A.Fq12.frobeniusMap = PP.Fq12.frobeniusMap := by gen_eq A.Fq12.frobeniusMap PP.Fq12.frobeniusMap by lower6
+theorem Fq12_square_eq : A.Fq12.square = PP.Fq12.square := by gen_eq A.Fq12.square PP.Fq12.square by lower6
+theorem Fq12_mul_eq : A.Fq12.mul = PP.Fq12.mul := by gen_eq A.Fq12.mul PP.Fq12.mul by lower6
 
 theorem Fq12_inverse_eq : A.Fq12.inverse = PP.Fq12.inverse := by
-  unfold A.Fq12.inverse PP.Fq12.inverse
-  lower6
-  rw [show @FieldOps.inv Fq6 _ = PP.Fq6.inverse from rfl]
-  generalize PP.Fq6.inverse = inv6
-  rfl
+  gen_eq A.Fq12.inverse PP.Fq12.inverse by lower6
 
 /-- rewrite generated `Fq12`, `Fq6` and `Fq2` operations into the model's -/
 local macro "lower12" : tactic => `(tactic| try simp -zeta only [Fq12_conjugate_eq, Fq12_mulBy014_eq, Fq12_zero_eq, Fq12_one_eq, Fq12_isZero_eq, Fq12_double_eq, Fq12_neg_eq, Fq12_add_eq, Fq12_sub_eq, Fq12_frobeniusMap_eq, Fq12_square_eq, Fq12_mul_eq, Fq12_inverse_eq,
@@ -123,7 +163,7 @@ theorem Fq12_instFieldOps_eq : A.Fq12.instFieldOps = (inferInstance : FieldOps F
 theorem Fq_sgn0_eq : A.Fq.sgn0 = (Zp.sgn0 : Fq → Sgn0) := rfl
 theorem Sgn0_xor_eq : A.Sgn0.xor = PP.Sgn0.xor := rfl
 theorem negateIf_eq {F : Type} [Neg F] : (A.negateIf : F → Sgn0 → F) = PP.negateIf := rfl
-theorem Fq2_legendre_eq : A.Fq2.legendre = PP.Fq2.legendre := rfl
+theorem Fq2_legendre_eq : A.Fq2.legendre = PP.Fq2.legendre := by unfold A.Fq2.legendre; rw [Fq2_norm_eq]; rfl
 theorem Fq2_sgn0_eq : A.Fq2.sgn0 = PP.Fq2.sgn0 := by unfold A.Fq2.sgn0; rw [Fq_sgn0_eq]; rfl
 
 /-- the two exponent literals of `Fq2::sqrt` are the limbs of the constants the model uses -/
@@ -258,6 +298,75 @@ theorem osswuHelp_eq : (A.osswuHelp : F → F → F → F → OsswuHelp F) = PP.
 
 end
 
+/-! ## the same over a coefficient RING with laws: robust against algebraic rewrites of the Rust source
+
+The statements above are over bare notation classes (`[Add F] [Mul F] .. [FieldOps F]`, no laws): there
+`x + y` and `y + x` ARE different, the generated definition and the model are equal only if they are
+the same term up to `let`s and projections, and `rfl` is all one can do.  Over a coefficient type with
+ring laws (`Lean.Grind.CommRing`, a core class) and `sq a = a * a`, `dbl a = a + a` (`LawfulSqDbl`) the
+functions that contain field arithmetic are proved equal by `gen_eq_ring` (`_of_ring`), hence also
+after a semantics-preserving rewrite of the Rust formulas.  `_Fq`, `_Fq2` are the instances for the
+model's own fields (no primality needed).  Every Mathlib `[Field F] [LawfulFieldOps F]` is an instance
+as well (Mathlib/Algebra/Ring/GrindInstances.lean), see the end of this file's header.
+These theorems do NOT use the `rfl`-only ones above. -/
+
+section
+set_option linter.unusedSectionVars false
+variable {F : Type} [Lean.Grind.CommRing F] [FieldOps F] [LawfulSqDbl F] [DecidableEq F]
+
+local macro "lowerEC0" : tactic => `(tactic| try simp -zeta only [Aff_zero_eq, Aff_isZero_eq, Jac_zero_eq, Jac_isZero_eq])
+
+theorem Aff_isOnCurve_eq_of_ring : (A.Aff.isOnCurve : F → Aff F → Bool) = PP.Aff.isOnCurve := by
+  gen_eq_ring A.Aff.isOnCurve PP.Aff.isOnCurve by lowerEC0
+theorem Jac_beq_eq_of_ring : (A.Jac.beq : Jac F → Jac F → Bool) = PP.Jac.beq := by
+  gen_eq_ring A.Jac.beq PP.Jac.beq by lowerEC0
+theorem Jac_double_eq_of_ring : (A.Jac.double : Jac F → Jac F) = PP.Jac.double := by
+  gen_eq_ring A.Jac.double PP.Jac.double by lowerEC0
+theorem Jac_add_eq_of_ring : (A.Jac.add : Jac F → Jac F → Jac F) = PP.Jac.add := by
+  gen_eq_ring A.Jac.add PP.Jac.add by (lowerEC0; simp -zeta only [Jac_double_eq_of_ring])
+theorem Jac_addMixed_eq_of_ring : (A.Jac.addMixed : Jac F → Aff F → Jac F) = PP.Jac.addMixed := by
+  gen_eq_ring A.Jac.addMixed PP.Jac.addMixed by (lowerEC0; simp -zeta only [Jac_double_eq_of_ring])
+theorem Jac_toAffine_eq_of_ring : (A.Jac.toAffine : Jac F → Option (Aff F)) = PP.Jac.toAffine := by
+  gen_eq_ring A.Jac.toAffine PP.Jac.toAffine by lowerEC0
+theorem osswuHelp_eq_of_ring : (A.osswuHelp : F → F → F → F → OsswuHelp F) = PP.osswuHelp := by
+  gen_eq_ring A.osswuHelp PP.osswuHelp by skip
+
+/-- Rust `(y < negy) ^ greatest`, model `(lt y negy) != greatest`; the argument of `sqrt` up to ring laws -/
+theorem Aff_getPointFromX_eq_of_ring [SqrtOps F] :
+    (A.Aff.getPointFromX : F → F → Bool → Option (Aff F)) = PP.Aff.getPointFromX := by
+  funext b x g
+  unfold A.Aff.getPointFromX PP.Aff.getPointFromX
+  simp only []
+  first
+  | (cases SqrtOps.sqrt (sq x * x + b) with
+     | none => rfl
+     | some y => simp only [])
+  | (simp only [sq_eq]; gen_split; all_goals (first | done | rfl | simp only []))
+
+end
+
+/-! the instances for the model's fields -/
+
+theorem Aff_isOnCurve_eq_Fq : (A.Aff.isOnCurve : Fq → Aff Fq → Bool) = PP.Aff.isOnCurve := Aff_isOnCurve_eq_of_ring
+theorem Jac_beq_eq_Fq : (A.Jac.beq : Jac Fq → Jac Fq → Bool) = PP.Jac.beq := Jac_beq_eq_of_ring
+theorem Jac_double_eq_Fq : (A.Jac.double : Jac Fq → Jac Fq) = PP.Jac.double := Jac_double_eq_of_ring
+theorem Jac_add_eq_Fq : (A.Jac.add : Jac Fq → Jac Fq → Jac Fq) = PP.Jac.add := Jac_add_eq_of_ring
+theorem Jac_addMixed_eq_Fq : (A.Jac.addMixed : Jac Fq → Aff Fq → Jac Fq) = PP.Jac.addMixed := Jac_addMixed_eq_of_ring
+theorem Jac_toAffine_eq_Fq : (A.Jac.toAffine : Jac Fq → Option (Aff Fq)) = PP.Jac.toAffine := Jac_toAffine_eq_of_ring
+theorem osswuHelp_eq_Fq : (A.osswuHelp : Fq → Fq → Fq → Fq → OsswuHelp Fq) = PP.osswuHelp := osswuHelp_eq_of_ring
+theorem Aff_getPointFromX_eq_Fq :
+    (A.Aff.getPointFromX : Fq → Fq → Bool → Option (Aff Fq)) = PP.Aff.getPointFromX := Aff_getPointFromX_eq_of_ring
+
+theorem Aff_isOnCurve_eq_Fq2 : (A.Aff.isOnCurve : Fq2 → Aff Fq2 → Bool) = PP.Aff.isOnCurve := Aff_isOnCurve_eq_of_ring
+theorem Jac_beq_eq_Fq2 : (A.Jac.beq : Jac Fq2 → Jac Fq2 → Bool) = PP.Jac.beq := Jac_beq_eq_of_ring
+theorem Jac_double_eq_Fq2 : (A.Jac.double : Jac Fq2 → Jac Fq2) = PP.Jac.double := Jac_double_eq_of_ring
+theorem Jac_add_eq_Fq2 : (A.Jac.add : Jac Fq2 → Jac Fq2 → Jac Fq2) = PP.Jac.add := Jac_add_eq_of_ring
+theorem Jac_addMixed_eq_Fq2 : (A.Jac.addMixed : Jac Fq2 → Aff Fq2 → Jac Fq2) = PP.Jac.addMixed := Jac_addMixed_eq_of_ring
+theorem Jac_toAffine_eq_Fq2 : (A.Jac.toAffine : Jac Fq2 → Option (Aff Fq2)) = PP.Jac.toAffine := Jac_toAffine_eq_of_ring
+theorem osswuHelp_eq_Fq2 : (A.osswuHelp : Fq2 → Fq2 → Fq2 → Fq2 → OsswuHelp Fq2) = PP.osswuHelp := osswuHelp_eq_of_ring
+theorem Aff_getPointFromX_eq_Fq2 :
+    (A.Aff.getPointFromX : Fq2 → Fq2 → Bool → Option (Aff Fq2)) = PP.Aff.getPointFromX := Aff_getPointFromX_eq_of_ring
+
 /-! ## `SubgroupCheck`, optimized SWU maps, cofactor clearing, `map_to_curve`
     (ec/g1.rs, ec/g2.rs, osswu_map/g1.rs, osswu_map/g2.rs, cofactor.rs, src/map_to_curve.rs) -/
 
@@ -284,14 +393,14 @@ local macro "lowerInst2" : tactic => `(tactic| (
   (try rewrite [Fq2_instFieldOps_eq'])))
 
 theorem G1Affine_inSubgroup_eq (b : Fq) : A.G1Affine.inSubgroup b Gen.r = PP.Aff.inSubgroup b := by
-  unfold A.G1Affine.inSubgroup; simp -zeta only [Aff_isOnCurve_eq, Aff_isInCorrectSubgroupAssumingOnCurve_eq]; all_goals rfl
+  unfold A.G1Affine.inSubgroup; simp -zeta only [Aff_isOnCurve_eq_Fq, Aff_isInCorrectSubgroupAssumingOnCurve_eq]; all_goals rfl
 
 theorem G2Affine_inSubgroup_eq (b : Fq2) : A.G2Affine.inSubgroup b Gen.r = PP.Aff.inSubgroup b := by
   unfold A.G2Affine.inSubgroup; lowerInst2
-  simp -zeta only [Aff_isOnCurve_eq, Aff_isInCorrectSubgroupAssumingOnCurve_eq]; all_goals rfl
+  simp -zeta only [Aff_isOnCurve_eq_Fq2, Aff_isInCorrectSubgroupAssumingOnCurve_eq]; all_goals rfl
 
 theorem G1_clearH_eq : A.G1.clearH = PP.clearHG1 := by
-  unfold A.G1.clearH; simp -zeta only [Jac_add_eq]; all_goals rfl
+  unfold A.G1.clearH; simp -zeta only [Jac_add_eq_Fq]; all_goals rfl
 
 theorem G2_clearH_eq : A.G2.clearH = PP.clearHG2 := by
   unfold A.G2.clearH; lowerInst2; all_goals rfl
@@ -376,7 +485,7 @@ theorem map2ToCurve_G1_eq :
     A.map2ToCurve (osswu_map := fun u => some (A.G1.osswuMap u)) (isogeny_map := PP.iso11)
         (add_assign := A.Jac.add) (clear_h := A.G1.clearH)
       = fun u0 u1 => some (PP.map2ToCurveG1 u0 u1) := by
-  rw [G1_osswuMap_eq, G1_clearH_eq, Jac_add_eq]; rfl
+  rw [G1_osswuMap_eq, G1_clearH_eq, Jac_add_eq_Fq]; rfl
 
 /-- for abstract trait methods (nothing to evaluate) -/
 theorem mapToCurve_map {α β : Type} (osswu : α → Option β) (iso clear : β → β) (u : α) :
@@ -398,15 +507,15 @@ theorem mapToCurve_G2_eq :
 theorem map2ToCurve_G2_eq :
     A.map2ToCurve (osswu_map := A.G2.osswuMap) (isogeny_map := PP.iso3) (add_assign := A.Jac.add)
         (clear_h := A.G2.clearH) = PP.map2ToCurveG2 := by
-  rw [G2_osswuMap_eq, G2_clearH_eq, Jac_add_eq]
+  rw [G2_osswuMap_eq, G2_clearH_eq, Jac_add_eq_Fq2]
   funext u0 u1
   exact map2ToCurve_bind _ _ _ _ _ _
 
 /-! ## pairing (src/bls12_381/mod.rs) -/
 
-theorem doublingStep_eq : A.doublingStep = PP.doublingStep := by unfold A.doublingStep; lower2; all_goals rfl
-theorem additionStep_eq : A.additionStep = PP.additionStep := by unfold A.additionStep; lower2; all_goals rfl
-theorem ell_eq : A.ell = PP.ell := by unfold A.ell; lower12; all_goals rfl
+theorem doublingStep_eq : A.doublingStep = PP.doublingStep := by gen_eq A.doublingStep PP.doublingStep by lower2
+theorem additionStep_eq : A.additionStep = PP.additionStep := by gen_eq A.additionStep PP.additionStep by lower2
+theorem ell_eq : A.ell = PP.ell := by gen_eq A.ell PP.ell by lower12
 
 /-- the Rust parameter `x : u64` is a `UInt64` in the generated code and a `Nat` reduced mod `2^64`
     in the model -/
